@@ -168,7 +168,7 @@ def run(ctx, only_replay=None):
     # ---------------------------------------------------------------- (D) correspondence (single loop, deterministic)
     exe = ctx.driver()
     nseq = 400 if quick else 6000
-    seqs = seqops.corpus_sequences() + [seqops.gen_sequence(ctx.rng.fork("seq%d" % i)) for i in range(nseq)]
+    seqs = seqops.corpus_sequences() + [seqops.gen_sequence(ctx.rng.fork("seq%d" % i), s_after_close=bool(facts and facts["flags"].get("supervisorPushClosedSafe"))) for i in range(nseq)]
     corr_diffs, corr_lines, corr_err = [], 0, None
     seq_cov = {}
     if exe and facts:
